@@ -92,3 +92,12 @@ claim("C05",
       "numpy fftn/ifftn/fftshift/ifftshift contracts and twiddle periodicity assumed (probed natively against the DFT matrix); unitarity of the "
       "orthonormal DFT assumed (round trip / norm preservation follow from the proved kernel identity); rank <= 2 quick / 3 thorough; FFT rounding not bounded.",
       "contract-based deductive verification (symbolic execution to linear forms with abstract twiddle kernel; rotation rule; congruence lemma; z3)")
+
+claim("C07",
+      "The real numba loop nests _interpolate1..3/_gridding1..3 and the real wrappers (batch flattening, per-axis width/param, kernel/ndim dispatch) are "
+      "summarised (one generic iteration per loop) and proved equal to the documented windowed sum: same summation range |g-c| <= W/2 (ceil/floor), "
+      "same wrapped element g mod n, same separable weight with per-axis width/param pairing, accumulation for gridding; _spline_kernel proved to be "
+      "the B-spline of order 0/1/2 on [-1,1]; _kaiser_bessel_kernel proved to be the Abramowitz-Stegun 9.8.1/9.8.2 forms.",
+      "numba = Python on these kernels (A-numba); loop-nest summarisation rule trusted; kernel enters loop-nest obligations as an abstract function; "
+      "A&S approximates I0 (cited); ndim <= 3, <= 1 batch axis, 1 points axis.",
+      "contract-based deductive verification (loop-nest summarisation of the real kernels to comprehensions, summation matching, z3)")
